@@ -7,6 +7,7 @@ import (
 	"io"
 	"net/http"
 	"net/http/httptest"
+	"os"
 	"reflect"
 	"runtime"
 	"strings"
@@ -15,6 +16,7 @@ import (
 
 	"pgregory.net/rapid"
 
+	"verif/refmodel"
 	"verif/res"
 	"verif/rt"
 )
@@ -87,13 +89,25 @@ type concurrentInst struct {
 	// other checks' business); only failures outside the baseline are isolation failures
 	baseline     map[string]bool
 	recordingRef bool
+	discard      bool // cold-start phase: functional failures are not judged
 }
+
+var coldStarted = map[string]bool{}
 
 func (ci *concurrentInst) failTag(tag, msg string) {
 	ci.mu.Lock()
 	defer ci.mu.Unlock()
+	if ci.discard {
+		return
+	}
 	if ci.recordingRef {
 		ci.baseline[tag] = true
+		if os.Getenv("VERIF_DEBUG_C20") != "" {
+			if f, err := os.OpenFile("/tmp/c20dbg.log", os.O_APPEND|os.O_CREATE|os.O_WRONLY, 0o644); err == nil {
+				fmt.Fprintln(f, "BASELINE-FAIL", clip(msg, 300))
+				f.Close()
+			}
+		}
 		return
 	}
 	if ci.baseline[tag] {
@@ -181,6 +195,43 @@ func CheckC20(p *Pkg, e *Env, r *res.Result) {
 		return
 	}
 	silenceLogError(p)
+	// cold start, server side: before anything of this package has been called in this
+	// process, every operation receives its first requests from many goroutines at once
+	// (whatever the generated code initialises on first use is initialised under
+	// contention). Only the race detector judges this phase.
+	{
+		cold := newConcurrentInst(p)
+		cold.discard = true
+		var wg sync.WaitGroup
+		start := make(chan struct{})
+		for g := 0; g < 8; g++ {
+			wg.Add(1)
+			go func() {
+				defer wg.Done()
+				<-start
+				for _, op := range p.Ops {
+					func() {
+						defer func() { recover() }()
+						req := httptest.NewRequest(op.Method, "http://h.example"+escapeForURL(p.BasePath+concretePath(op.Template)), nil)
+						if cs := p.Doc.Components; cs != nil {
+							for _, sch := range cs.SecuritySchemes {
+								switch refmodel.SchemeKind(sch) {
+								case "bearer":
+									req.Header.Set("Authorization", "Bearer cold")
+								case "apikey-header":
+									req.Header.Set(sch.Name, "cold")
+								}
+							}
+						}
+						cold.h.ServeHTTP(httptest.NewRecorder(), req)
+					}()
+				}
+			}()
+		}
+		close(start)
+		wg.Wait()
+		r.Label("phase:cold-start-server-side")
+	}
 	// link implementers sequentially (probing uses the ordinary recording Inst)
 	probe := NewInst(p)
 	probe.NoParse = true
@@ -190,14 +241,44 @@ func CheckC20(p *Pkg, e *Env, r *res.Result) {
 		infos []implInfo
 	}
 	var ops []opInfo
+	// secured operations take part when every scheme they name is read from a header goag
+	// has a hook for (bearer, api key in a header): each request then carries a credential of
+	// its own and the authenticators check that they are handed exactly that one
+	var authEvents []string
+	sec := NewSecHarness(probe, &authEvents)
+	sec.InstallAcceptAll() // (the probe links response types to operations: it must get past the security check)
+	headerBorne := func(op *Op) bool {
+		for _, alt := range p.Doc.EffectiveSecurity(op.Spec) {
+			for name := range alt {
+				k := ""
+				if p.Doc.Components != nil && p.Doc.Components.SecuritySchemes[name] != nil {
+					k = refmodel.SchemeKind(p.Doc.Components.SecuritySchemes[name])
+				}
+				if (k != "bearer" && k != "apikey-header") || sec.Field[name] == "" {
+					return false
+				}
+			}
+		}
+		return true
+	}
 	for _, op := range p.Ops {
-		if op.ClientMethod == "" || len(p.Doc.EffectiveSecurity(op.Spec)) > 0 || op.Method == "HEAD" {
-			continue // secured operations need injected header fields; covered through the hooks below only when public
+		if op.ClientMethod == "" || !headerBorne(op) || op.Method == "HEAD" {
+			if len(p.Doc.EffectiveSecurity(op.Spec)) > 0 {
+				r.Label("secured-operation:left-out:scheme-without-header-hook")
+			}
+			continue
 		}
 		docs := docResponses(p, op)
 		infos, problems := linkImplementers(probe, op, docs)
 		if len(problems) > 0 || len(infos) == 0 {
+			if len(p.Doc.EffectiveSecurity(op.Spec)) > 0 {
+				r.Label("secured-operation:left-out:responses-not-linked")
+				r.Sample(map[string]any{"secured_op_not_linked": op.String(), "problems": problems}, 2)
+			}
 			continue
+		}
+		if len(p.Doc.EffectiveSecurity(op.Spec)) > 0 {
+			r.Label("secured-operation:in-traffic")
 		}
 		ops = append(ops, opInfo{op, docs, infos})
 	}
@@ -221,6 +302,20 @@ func CheckC20(p *Pkg, e *Env, r *res.Result) {
 		useServer := rapid.IntRange(0, 2).Draw(t, "loopback") != 0
 		nmw := rapid.IntRange(0, 3).Draw(t, "middlewares")
 		ci := newConcurrentInst(p)
+		for name, field := range sec.Field {
+			name := name
+			if f := ci.v.Elem().FieldByName(field); field != "" && f.IsValid() {
+				fn := func(r *http.Request, token string) (*http.Request, bool) {
+					tag := r.Header.Get("X-Verif-Tag")
+					runtime.Gosched()
+					if token != "tok-"+tag {
+						ci.failTag(tag, fmt.Sprintf("tag %s: the authenticator of scheme %s was handed the credential %q, not the one this request carries", tag, name, clip(token, 60)))
+					}
+					return r, true
+				}
+				f.Set(reflect.ValueOf(fn).Convert(f.Type()))
+			}
+		}
 		// middlewares appended one at a time (capacity > length) and yielding
 		var mws []func(http.Handler) http.Handler
 		for i := 0; i < nmw; i++ {
@@ -259,7 +354,37 @@ func CheckC20(p *Pkg, e *Env, r *res.Result) {
 				}
 				oi := ops[rapid.IntRange(0, len(ops)-1).Draw(t, fmt.Sprintf("op_%d_%d", g, k))]
 				params, raw, _ := GenParams(t, p, oi.op, nil)
-				if sharedResponses {
+				tag := fmt.Sprintf("t%d-%d", g, k)
+				secured := len(p.Doc.EffectiveSecurity(oi.op.Spec)) > 0
+				if hf := params.FieldByName("Headers"); secured && hf.IsValid() {
+					for name, sch := range p.Doc.Components.SecuritySchemes {
+						want, val := "", "tok-"+tag
+						switch refmodel.SchemeKind(sch) {
+						case "bearer":
+							want, val = "authorization", "Bearer tok-"+tag
+						case "apikey-header":
+							want = Norm(sch.Name)
+						}
+						_ = name
+						for i := 0; want != "" && i < hf.NumField(); i++ {
+							f := hf.Field(i)
+							if Norm(hf.Type().Field(i).Name) != want {
+								continue
+							}
+							switch {
+							case isOptionStruct(f.Type()) && f.Field(1).Kind() == reflect.String:
+								f.Field(0).SetBool(true)
+								f.Field(1).SetString(val)
+							case f.Kind() == reflect.String:
+								f.SetString(val)
+							}
+						}
+					}
+				}
+				if secured {
+					r.Label("call:secured-with-its-own-credential")
+				}
+				if sharedResponses && !secured {
 					// likewise one shared, read-only parameter value per operation (a template
 					// request sent by many goroutines)
 					if sp, ok := sharedParams[oi.op]; ok {
@@ -277,7 +402,7 @@ func CheckC20(p *Pkg, e *Env, r *res.Result) {
 						shared[info.T] = sharedResp{resp, respRaw}
 					}
 				}
-				pc := &plannedCall{tag: fmt.Sprintf("t%d-%d", g, k), op: oi.op, params: params, raw: raw, resp: resp, respRaw: respRaw, info: info,
+				pc := &plannedCall{tag: tag, op: oi.op, params: params, raw: raw, resp: resp, respRaw: respRaw, info: info,
 					yields: rapid.IntRange(0, 3).Draw(t, fmt.Sprintf("y_%d_%d", g, k))}
 				pc.wantReq = projectParams(params, raw)
 				ci.plans.Store(pc.tag, pc)
@@ -414,6 +539,30 @@ func CheckC20(p *Pkg, e *Env, r *res.Result) {
 					}
 				}
 			}
+		}
+		// cold start (first round of a package in this process): the very first calls of
+		// every operation arrive together, before anything has been called alone - whatever
+		// the generated package initialises lazily is initialised under contention. Only
+		// the race detector judges this phase.
+		if !coldStarted[p.Name] {
+			coldStarted[p.Name] = true
+			ci.discard = true
+			var cwg sync.WaitGroup
+			cstart := make(chan struct{})
+			for g := 0; g < n; g++ {
+				cwg.Add(1)
+				go func(seq []*plannedCall) {
+					defer cwg.Done()
+					<-cstart
+					for _, pc := range seq {
+						callOne(pc)
+					}
+				}(plans[g])
+			}
+			close(cstart)
+			cwg.Wait()
+			ci.discard = false
+			r.Label("phase:cold-start")
 		}
 		// baseline: every planned call once, alone
 		ci.baseline = map[string]bool{}
